@@ -22,7 +22,7 @@ from concurrent.futures import ProcessPoolExecutor
 from concurrent.futures.process import BrokenProcessPool
 
 VERIF_DIR = os.path.dirname(os.path.dirname(os.path.abspath(__file__)))
-STEP_TIMEOUT_S = 30          # one library call taking this long = hang
+STEP_TIMEOUT_S = 20          # one library call taking this long = hang
 CHUNK_TIMEOUT_S = 900        # faulthandler guard per worker chunk
 
 
@@ -216,10 +216,16 @@ def viol(prop, inv, detail, **extra):
 
 class guarded_call:
     """Context manager arming a SIGALRM so a library call that never returns
-    becomes a StepTimeout instead of a hung worker."""
+    becomes a StepTimeout instead of a hung worker.  After the first hang seen by a process
+    (`hang_seen`) the guard is shortened: one full-length wait establishes the hang, every
+    further hanging step of the same batch should not cost that much again."""
     enabled = True
+    hang_seen = False
+    short = 3
 
-    def __init__(self, seconds=STEP_TIMEOUT_S):
+    def __init__(self, seconds=None):
+        if seconds is None:
+            seconds = guarded_call.short if guarded_call.hang_seen else STEP_TIMEOUT_S
         self.seconds = seconds
 
     def __enter__(self):
@@ -293,8 +299,15 @@ def execute(engine, prop, config, ops=None, rng=None, stop_on=None):
                     outcome, vs = engine.apply(world, op)
             except StepTimeout:
                 outcome = "hang"
+                guarded_call.hang_seen = True
                 vs = [viol(engine.op_property(world, op, prop), "T.hang",
-                           "library call did not return within %ds" % STEP_TIMEOUT_S)]
+                           "library call did not return within the step guard (%ds)" % STEP_TIMEOUT_S)]
+                # the interrupted call left its objects in an undefined state
+                for key in ("h", "new", "other", "src"):
+                    if op.get(key) is not None:
+                        world.handles.pop(op[key], None)
+                for hid_ in op.get("hs", []) or []:
+                    world.handles.pop(hid_, None)
             except Exception:
                 if res.foreign:
                     # an oracle tripped over an object that an earlier, already recorded violation of
@@ -353,14 +366,16 @@ def same_class(res, cls):
     return any((v["prop"], v["inv"]) == tuple(cls) for v in res.violations)
 
 
-def minimise(engine, prop, config, ops, cls, budget=1500):
+def minimise(engine, prop, config, ops, cls, budget=1500, max_seconds=240):
     """ddmin on the op list (chunks, then single ops), then engine-specific
     argument simplification; a candidate is accepted only if the same
     violation class (property, invariant id) persists."""
     calls = [0]
+    t_end = time.time() + max_seconds      # wall-clock cap (a hanging candidate costs STEP_TIMEOUT_S);
+    # it only bounds how far the history is shrunk - the result is a valid failing history either way
 
     def test(cand):
-        if calls[0] >= budget:
+        if calls[0] >= budget or time.time() > t_end:
             return False
         calls[0] += 1
         try:
@@ -502,7 +517,9 @@ def _run_chunk(args):
     samples = []
     steps = 0
     t0 = time.time()
+    executed = 0
     for r in range(start, stop):
+        executed += 1
         try:
             res = run_one(engine, prop, seed, r, tier)
         except Exception:
@@ -519,11 +536,13 @@ def _run_chunk(args):
                           "violations": res.violations + res.foreign})
             if len(viols) > 20:
                 viols = viols[:20]
+            if any(v["inv"] == "T.hang" for v in res.violations):
+                break       # an own-property hang: one per chunk is enough
         if want_samples and len(samples) < want_samples and res.nontrivial:
             samples.append({"run": r, "ops": res.ops, "outcomes": res.outcomes})
     faulthandler.cancel_dump_traceback_later()
     import numpy as np
-    return {"stats": stats, "digest_sum": digest_sum, "steps": steps, "runs": stop - start,
+    return {"stats": stats, "digest_sum": digest_sum, "steps": steps, "runs": executed,
             "shapes": np.array(nontriv_shapes, dtype=np.uint64),
             "all_shapes": np.array(shapes, dtype=np.uint64),
             "finals": np.array(finals, dtype=np.uint64),
